@@ -210,6 +210,40 @@ func malformedClass(p string) string {
 	return "other"
 }
 
+const keyEsc = "\\" + "u00"
+
+// escapeKeyStarts spells the first character of every member name of a compact document as an escape.
+func escapeKeyStarts(doc string) string {
+	var sb strings.Builder
+	for i := 0; i < len(doc); i++ {
+		sb.WriteByte(doc[i])
+		if doc[i] != '"' || i+1 >= len(doc) || doc[i+1] == '"' {
+			continue
+		}
+		// is this quote the start of a member name?  (the string is followed by a colon)
+		j := i + 1
+		for j < len(doc) && doc[j] != '"' {
+			j++
+		}
+		if j+1 < len(doc) && doc[j+1] == ':' && (i == 0 || doc[i-1] == '{' || doc[i-1] == ',') {
+			fmt.Fprintf(&sb, "%s%02x", keyEsc, doc[i+1])
+			sb.WriteString(doc[i+2 : j+1])
+			i = j
+		} else {
+			sb.WriteString(doc[i+1 : j+1])
+			i = j
+		}
+	}
+	return sb.String()
+}
+
+func unescapeKeyStarts(s string) string {
+	for _, c := range "ab01" {
+		s = strings.ReplaceAll(s, fmt.Sprintf("\"%s%02x", keyEsc, c), "\""+string(c))
+	}
+	return s
+}
+
 func (r *runner) checkPath(pc pathCase, counted bool) (*gojson.Path, bool) {
 	w := r.w
 	var p *gojson.Path
@@ -231,30 +265,48 @@ func (r *runner) checkPath(pc pathCase, counted bool) (*gojson.Path, bool) {
 		w.DivFine("create|accepts-malformed-path|"+malformedClass(pc.Path), "create|"+pc.Path, counted, "CreatePath accepts a text outside the documented grammar", pCase(pc, "", nil, false))
 		return p, false
 	}
-	for di, doc := range r.docs {
+	// every document is also offered in a second spelling: the first character of each member name as a \uXXXX escape
+	// (the same document; the selection must be the same)
+	ndocs := len(r.docs)
+	for dj := 0; dj < 2*ndocs; dj++ {
+		di := dj % ndocs
+		doc := r.docs[di]
+		spelled := ""
+		if dj >= ndocs {
+			doc = escapeKeyStarts(doc)
+			if doc == r.docs[di] {
+				continue
+			}
+			spelled = "|escaped-member-names"
+		}
 		w.Count("calls", 2)
 		got, gerr, pan := extract(p, doc)
+		if spelled != "" {
+			for k := range got {
+				got[k] = unescapeKeyStarts(got[k])
+			}
+		}
 		want := pc.Results[di]
 		c := pCase(pc, doc, want, true)
 		switch {
 		case pan != "":
-			w.DivFine("extract|panic:"+pan+"|"+selKinds(pc.Path), "extract|"+pc.Path+"|"+fmt.Sprint(di), counted, "panic", c)
+			w.DivFine("extract|panic:"+pan+"|"+selKinds(pc.Path)+spelled, "extract|"+pc.Path+"|"+fmt.Sprint(di), counted, "panic", c)
 			continue
 		case len(want) == 0:
 			if gerr == nil && len(got) != 0 {
-				w.DivFine("extract|selects-where-reference-selects-nothing|"+selKinds(pc.Path), "extract|"+pc.Path+"|"+fmt.Sprint(di), counted, fmt.Sprintf("got %v", got), c)
+				w.DivFine("extract|selects-where-reference-selects-nothing|"+selKinds(pc.Path)+spelled, "extract|"+pc.Path+"|"+fmt.Sprint(di), counted, fmt.Sprintf("got %v", got), c)
 			}
 		case gerr != nil:
-			w.DivFine("extract|error-where-reference-selects|"+selKinds(pc.Path), "extract|"+pc.Path+"|"+fmt.Sprint(di), counted, fmt.Sprintf("error %v; reference %v", gerr, want), c)
+			w.DivFine("extract|error-where-reference-selects|"+selKinds(pc.Path)+spelled, "extract|"+pc.Path+"|"+fmt.Sprint(di), counted, fmt.Sprintf("error %v; reference %v", gerr, want), c)
 		case !sameList(got, want):
-			w.DivFine("extract|different-selection|"+selKinds(pc.Path), "extract|"+pc.Path+"|"+fmt.Sprint(di), counted, fmt.Sprintf("got %v; reference %v", got, want), c)
+			w.DivFine("extract|different-selection|"+selKinds(pc.Path)+spelled, "extract|"+pc.Path+"|"+fmt.Sprint(di), counted, fmt.Sprintf("got %v; reference %v", got, want), c)
 		}
 		// Path.Unmarshal decodes the same parts
 		if gerr == nil && pan == "" {
 			var v interface{}
 			var uerr error
 			if rec := wk.Guard(func() { uerr = p.Unmarshal([]byte(doc), &v) }); rec != nil {
-				w.DivFine("unmarshal|panic:"+wk.PanicClass(rec)+"|"+selKinds(pc.Path), "unmarshal|"+pc.Path+"|"+fmt.Sprint(di), counted, fmt.Sprint(rec), c)
+				w.DivFine("unmarshal|panic:"+wk.PanicClass(rec)+"|"+selKinds(pc.Path)+spelled, "unmarshal|"+pc.Path+"|"+fmt.Sprint(di), counted, fmt.Sprint(rec), c)
 				continue
 			}
 			if uerr == nil {
@@ -266,7 +318,7 @@ func (r *runner) checkPath(pc pathCase, counted bool) (*gojson.Path, bool) {
 				}
 				gv, _ := v.([]interface{})
 				if len(gv) != len(wantV) || (len(gv) > 0 && !reflect.DeepEqual(gv, wantV)) {
-					w.DivFine("unmarshal|differs-from-extract|"+selKinds(pc.Path), "unmarshal|"+pc.Path+"|"+fmt.Sprint(di), counted, fmt.Sprintf("Unmarshal %v; Extract %v", v, got), c)
+					w.DivFine("unmarshal|differs-from-extract|"+selKinds(pc.Path)+spelled, "unmarshal|"+pc.Path+"|"+fmt.Sprint(di), counted, fmt.Sprintf("Unmarshal %v; Extract %v", v, got), c)
 				}
 			}
 		}
